@@ -4,10 +4,11 @@
   of `mapper_real` / `mapper_apparent` / `mapper_known` come out of a probe that includes lltdBlock.c itself) are the model's
   `mapperMatches` / `setActiveMapper` under the encoding `Enc` of the model's record in those bytes.  No Mathlib.
 -/
-import LLTD.Lemmas.TranslatedEventEq
+import LLTD.Lemmas.TranslatedWireEq
+import LLTD.Model.Block
 
 namespace LLTD.TMapEq
-open LLTD LLTD.CSem LLTD.TWEq LLTD.TEvEq
+open LLTD LLTD.CSem LLTD.TWEq
 
 /-- `compareEthernetAddress` as translated compares the first six bytes -/
 theorem compare_eq (env : TW.Env) (a b : List Nat) (ha : 6 ≤ a.length) (hb : 6 ≤ b.length) :
